@@ -156,7 +156,8 @@ def main(tier):
                 Curve(Array([1.0, 2.0], "m"), Array([0.0, 1.0], "s")), Curve(Array(numpy.array([1.0, 2.0]), "m"), Array(numpy.array([0.0, 1.0]), "s")),
                 Curve(Array([1.0, 2.0, 3.0], "m"), Array([0.0, 1.0, 2.0], "s")),
                 UnitSystem("a", "A", {"length": "m"}), UnitSystem("a", "A", {"length": "m"}), UnitSystem("b", "B", {}),
-                None, "m", 1, 1.0, (1.0, "m"), 0.5]
+                UnitSystem("c", "C", {"length": "m", "time": "s"}), UnitSystem("c", "C", {"time": "s", "length": "m"}),
+                None, "m", 1, 1.0, (1.0, "m"), 0.5, 10 ** 400, -(10 ** 400), 2 ** 70]
         for i, a in enumerate(objs):
             for j, b in enumerate(objs):
                 raised = ""
@@ -181,4 +182,4 @@ def main(tier):
                         "unrelated right-hand sides: None, str, int, float, tuple (numpy arrays own ndarray == x)"]
     return rep.finish(rule="(1) 11 x 11 pool matrix predicted by TLC x 4 order operators x Scalar/FractionScalar; (2) seeded unit pairs of every quantity "
                            "type x two amounts, six operator results judged by TLC against the measured sign of the base-unit difference; ordering across "
-                           "quantity types; (3) ==/!= over all ordered pairs of %d value objects / unrelated objects, judged by TLC" % 52)
+                           "quantity types; (3) ==/!= over all ordered pairs of %d value objects / unrelated objects, judged by TLC" % 57)
